@@ -85,6 +85,9 @@ def check_case(case, fenced=True):
     try:
         ids = db_sqlite.select_ids(sql)
     except sqlite3.Error as e:
+        if lib.engine_limit(e):
+            case["_stats"] = {"decided": 0, "undecided": 0, "engine_limit": 1}
+            return None      # the engine's own depth / size limit: nothing is decided about this filter
         return ("engine-error", "%r -> WHERE %s -> sqlite3: %s" % (text, sql, e))
     bad, stats = semcheck.compare(t, case["rows"], set(ids), fences=(set(known_ids(PROPERTY_ID)) if fenced else set()) | {"int-div-truncates"})
     case["_stats"] = stats
@@ -232,6 +235,7 @@ def run_task(task, seed, acc):
         acc.cls("rows_undecided", stats.get("undecided", 0))
         acc.cls("rows_selected", stats.get("selected", 0))
         acc.cls("rows_excluded_by_known_finding", stats.get("excluded_by_known_finding", 0))
+        acc.cls("filters_beyond_an_engine_limit", stats.get("engine_limit", 0))
         for c in classes_of(t, case["rows"]):
             acc.cls(c)
         if r:
